@@ -185,6 +185,16 @@ Theorem C18_holds : forall c, valid c -> holds c (run_model c) = [].
 Proof. exact holds_model. Qed.
 Print Assumptions C18_holds.
 
+(* the hypotheses of C18_holds are decidable from the case; the driver reports [validb] for every evaluated
+   case, and the evidence counts the cases inside / outside the theorem *)
+Theorem C18_validb_valid : forall c, validb c = true -> valid c.
+Proof. exact validb_valid. Qed.
+Print Assumptions C18_validb_valid.
+
+Theorem C18_covered_cases : forall c, validb c = true -> holds c (run_model c) = [].
+Proof. intros c H. apply holds_model. now apply validb_valid. Qed.
+Print Assumptions C18_covered_cases.
+
 (* the executable verdict and the clauses as propositions cannot drift apart *)
 Theorem C18_holds_iff : forall c o,
   holds c o = [] <->
